@@ -172,14 +172,12 @@ def gen_source(L, T, shape):
     module_level = start == 1
     ind = "" if module_level else ("\t" if shape == "tabs" else "    ")
     lines = []
+    if shape == "latin1":
+        if start < 3:
+            return None
+        lines.append("# -*- coding: latin-1 -*-")
     if not module_level:
         lines.append("def entry(make):")
-        if shape == "latin1":
-            if start < 3:
-                return None
-            lines.append("    # -*- coding: latin-1 -*-")
-    elif shape == "latin1":
-        return None
     while len(lines) < start - 1:
         lines.append(filler(len(lines) + 1, ind))
     lines += [s.replace("{i}", ind) for s in stmt]
@@ -429,7 +427,7 @@ def check_render(env, case, exc, verb, utf8, ignore, ansi, simple):
     try:
         trace.render(io, simple)
     except Exception as e:
-        return bad("crash:" + report.exc_site(e) + (":simple" if simple else ""), "render raised %s: %s" % (type(e).__name__, e),
+        return bad("crash:" + _trace.crash_site(e), "render raised %s: %s" % (type(e).__name__, e),
                    "render returns", {"exception": repr(e), "output_so_far": strip_sgr(io.fetch_output())[-300:]})
     text = io.fetch_output() + io.fetch_error()
     plain = strip_sgr(text)
@@ -464,6 +462,11 @@ def check_render(env, case, exc, verb, utf8, ignore, ansi, simple):
         if info:
             lines, multi = info
             for _, n, shown in rows:
+                if n == len(lines) + 1 and shown.strip() == "":
+                    # An empty extra line after the final newline of a file that ends inside an indented block is
+                    # accepted: two repo tests (test_render_can_ignore_given_files, ..._shows_ignored_files_if_in_debug_mode)
+                    # pin exactly that output ("6| " for the 5-line helpers.py), so it is treated as intended.
+                    continue
                 if n > len(lines):
                     return bad("snippet:line-beyond-file", "line %d shown, file has %d" % (n, len(lines)), len(lines), n)
                 if multi is None or n in multi:
@@ -539,10 +542,11 @@ def check_highlighter(path):
     try:
         out = Highlighter(supports_utf8=True).highlighted_lines(text)
     except Exception as e:
-        return report.viol("crash:" + report.exc_site(e) + ":highlighter", "Highlighter raised %s: %s on %s" % (type(e).__name__, e, os.path.basename(path)),
+        return report.viol("crash:" + _trace.crash_site(e) + ":highlighter", "Highlighter raised %s: %s on %s" % (type(e).__name__, e, os.path.basename(path)),
                            case, "a list of lines", repr(e))
     want = len(lines)
-    if len(out) != want and not (want == 0 and len(out) <= 1):
+    extra_empty = len(out) == want + 1 and nstar(out[-1]).strip() == ""  # see check_rows: pinned by repo tests
+    if len(out) != want and not extra_empty and not (want == 0 and len(out) <= 1):
         return report.viol("highlighter:line-count", "%s: %d lines highlighted, source has %d" % (os.path.basename(path), len(out), want), case, want, len(out))
     if multi is None:
         return None
@@ -552,10 +556,11 @@ def check_highlighter(path):
             continue
         if "<" in lines[n - 1] or "<" in (lines[n - 2] if n > 1 else ""):
             io = BufferedIO()  # a line with '<' may leave styles open; every other line is balanced
+        io.clear_output()
         try:
             io.write_line(hl)
         except Exception as e:
-            return report.viol("crash:" + report.exc_site(e) + ":highlighted-line", "writing highlighted line %d of %s raised %s: %s" % (n, os.path.basename(path), type(e).__name__, e),
+            return report.viol("crash:" + _trace.crash_site(e) + ":highlighted-line", "writing highlighted line %d of %s raised %s: %s" % (n, os.path.basename(path), type(e).__name__, e),
                                case + [n], "line is written", {"source": lines[n - 1], "highlighted": hl})
         shown = io.fetch_output()
         if nreg(shown).rstrip() != nreg(lines[n - 1]).rstrip():
@@ -570,7 +575,11 @@ def corpus():
     for d, _, fs in sorted(os.walk(src)):
         own += [os.path.join(d, f) for f in sorted(fs) if f.endswith(".py")]
     std = sysconfig.get_paths()["stdlib"]
-    mods = sorted(f for f in os.listdir(std) if f.endswith(".py"))[:300]
+    mods = []
+    for d, ds, fs in os.walk(std):
+        ds[:] = [x for x in ds if x not in ("site-packages", "test", "tests", "__pycache__", "idle_test")]
+        mods += [os.path.relpath(os.path.join(d, f), std) for f in fs if f.endswith(".py")]
+    mods = sorted(mods)[:300]
     return sorted(own) + [os.path.join(std, m) for m in mods]
 
 
